@@ -314,8 +314,14 @@ def check_all_returns(ctx, scan, v, nt, loop_ret_stmt, loopvar):
         if s["rv"]["k"] == "use" and s["rv"]["op"]["k"] in ("copy", "move"):
             r = v.root(s["rv"]["op"])
             why = "returns %r" % (r,)
+            # the payload resolved to the pair it was built from (the only Some(..) ever stored in the Option)
+            rv0 = v.rvalue_of(r) if r.kind == "local" and not r.path else None
+            if rv0 is not None and rv0["k"] == "aggregate" and rv0["agg"] == "tuple" and len(rv0["ops"]) == 2:
+                e_root, g_root = v.root(rv0["ops"][0]), v.root(rv0["ops"][1])
+                gt = v.call_term(g_root)
+                ok = (e_root == loopvar and gt is not None and idroles.is_role(ctx, gt, "pop_edge") and v.root(gt["args"][1]) == loopvar)
             # payload of an Option local that is assigned Some((loopvar, pop_edge(subgraph, loopvar))) in the loop
-            if r.kind == "local" and r.path[:2] == ("as:Some", "0"):
+            if not ok and r.kind == "local" and r.path[:2] == ("as:Some", "0"):
                 ol = r.base[1]
                 somes = []
                 for bj, sj, st in pat.aggregates(scan, pat.OPTION, "Some"):
